@@ -425,6 +425,23 @@ func c10Body(t *zsim.Tape, w *zsim.World, d *zsim.Disk, sc *c10Scenario, out *hl
 	sc.Body = body
 	req := httptest.NewRequest("POST", "http://sim.local/run?x=1", nil)
 	req.Body = fb
+	// the announced length is what the client's header says, not what it sends
+	switch t.Draw(6) {
+	case 0:
+		req.ContentLength = int64(len(body))
+	case 1:
+		req.ContentLength = -1 // unknown (chunked)
+	case 2:
+		req.ContentLength = 1 << 62
+		sc.BodyFail += " announced Content-Length 2^62"
+	case 3:
+		req.ContentLength = 1<<63 - 1
+		sc.BodyFail += " announced Content-Length 2^63-1"
+	case 4:
+		req.ContentLength = int64(len(body)) + 1000
+	case 5:
+		req.ContentLength = 0
+	}
 	if t.Draw(2) == 1 {
 		req.Header.Set("Content-Type", "application/json")
 	}
